@@ -105,7 +105,9 @@ impl<'i> Iterator for Parser<'i> {
     fn next(&mut self) -> Option<Self::Item> {
         let res = self.parse_next();
         if res.is_err() {
+            // stop iterating after an error: forget the rest of the input *and* the message in progress
             self.input = &[];
+            self.pending_list_entries = 0;
         }
         match res {
             Ok(None) => None,
